@@ -1,7 +1,7 @@
 ----------------------------- MODULE Access_MC -----------------------------
 (* C01 generator: blocking put/get of EVERY legal (start,count,stride) request over variables of
    0..5 dimensions (fixed and record), on top of the Data model.  Used in simulation mode. *)
-EXTENDS Data, Json
+EXTENDS Data, Json, Randomization
 
 CONSTANT Depth
 VARIABLE tk
@@ -31,11 +31,20 @@ ReqsOf(v) == {[v |-> v, subs |-> << [start  |-> AsSeq([d \in 1..Len(o) |-> o[d][
                                      count  |-> AsSeq([d \in 1..Len(o) |-> o[d][2]]),
                                      stride |-> AsSeq([d \in 1..Len(o) |-> o[d][3]])] >>] : o \in Opts(Shape(v), 1)}
 
+(* list-of-subarrays requests: two or three random unit-stride subarrays of one variable *)
+UnitSubs(v) == {r.subs[1] : r \in {q \in ReqsOf(v) : \A d \in 1..Len(q.subs[1].stride) : q.subs[1].stride[d] = 1}}
+VarnReqs(v) == {[v |-> v, subs |-> <<a, b>>] : a \in RandomSubset(1, UnitSubs(v)), b \in RandomSubset(1, UnitSubs(v))}
+               \cup {[v |-> v, subs |-> <<a, b, c>>] : a \in RandomSubset(1, UnitSubs(v)), b \in RandomSubset(1, UnitSubs(v)), c \in RandomSubset(1, UnitSubs(v))}
+ToSet(s) == {s[i] : i \in 1..Len(s)}
+NoDup(r) == Cardinality(ToSet(Elems(r))) = Len(Elems(r))
+
 Toks(r) == AsSeq([k \in 1..Len(Elems(r)) |-> tk * 10 + k])
 
 ANext ==
     \/ \E v \in 0..(NV - 1) : \E r \in ReqsOf(v) : BPut(r, Toks(r), ReqErr(r, FALSE)) /\ tk' = tk + 1
     \/ \E v \in 0..(NV - 1) : \E r \in ReqsOf(v) : ReqErr(r, TRUE) = "NC_NOERR" /\ BGet(r, "NC_NOERR") /\ tk' = tk
+    \/ \E v \in 1..(NV - 1) : \E r \in VarnReqs(v) : NoDup(r) /\ BPut(r, Toks(r), ReqErr(r, FALSE)) /\ tk' = tk + 1
+    \/ \E v \in 1..(NV - 1) : \E r \in VarnReqs(v) : ReqErr(r, TRUE) = "NC_NOERR" /\ BGet(r, "NC_NOERR") /\ tk' = tk
     \* close and reopen: the logical content is what it was
     \/ /\ Len(hist) > 0 /\ hist[Len(hist)].c # "reopen"
        /\ UNCHANGED state /\ hist' = H([c |-> "reopen"]) /\ tk' = tk
